@@ -142,9 +142,10 @@ type param struct {
 }
 
 type helper struct {
-	name   string
-	params []param
-	body   *E
+	name    string
+	params  []param
+	body    *E
+	grouped bool // consecutive parameters of one type are written as one field: func(_, v dsl.Var)
 }
 
 // a statement of a rule group: a helper definition, a constant declaration or a rule
@@ -171,6 +172,10 @@ type fileCase struct {
 	paramNamed bool // an identifier argument is spelled like a parameter of the called helper
 	octal      bool // a helper body contains a legacy octal literal
 	twice      bool // a helper is called more than once (with other arguments)
+	blank      bool // a helper has a blank parameter
+	blankFirst bool // ... in front of a named one
+	constBody  bool // a helper body refers to a named constant
+	shadowBody bool // ... declared in the group and shadowing a package-level constant of another value
 }
 
 // package-level constants; several are named like helper parameters
@@ -186,6 +191,27 @@ var pkgConsts = []namedConst{
 	{"s", true, "int64", 0}, {"t", true, "int32", 0}, {"v", true, "int32", 0},
 	{"cEight", false, "", 8}, {"cFour", false, "", 4}, {"cTwo", false, "", 2},
 	{"n", false, "", 8}, {"k", false, "", 4}, {"lo", false, "", 2}, {"hi", false, "", 420}, {"w", false, "", 4}, {"cBig", false, "", 512},
+	// shadowed inside groups by constants that hold the value a filter argument position wants (see shadowPool)
+	{"cObj", true, "Func", 0}, {"cKind", true, "uint", 0}, {"cImp", true, "os", 0}, {"cTag", true, "BasicLit", 0},
+	{"cVer", true, "1.99", 0}, {"cSub", true, "$x", 0}, {"cTxt", true, "zz", 0}, {"cSz", false, "", 2}, {"cVal", false, "", 644},
+}
+
+// constants a group may declare: most shadow a package-level constant of the same name and ANOTHER value, two have no namesake
+var shadowPool = []namedConst{
+	{"hi", false, "", 64}, {"n", false, "", 2}, {"s", true, "int32", 0}, {"lo", false, "", 8}, {"t", true, "int64", 0}, {"k", false, "", 8},
+	{"cObj", true, "Var", 0}, {"cKind", true, "int", 0}, {"cImp", true, "fmt", 0}, {"cTag", true, "Ident", 0}, {"cVer", true, "1.16", 0},
+	{"cSub", true, "$y", 0}, {"cTxt", true, "a8", 0}, {"cSz", false, "", 8}, {"cSz", false, "", 4}, {"cVal", false, "", 420}, {"cVal", false, "", 512},
+	{"hi", false, "", 512}, {"s", true, "int64", 0}, {"t", true, "int32", 0},
+	{"lcT", true, "int32", 0}, {"lcN", false, "", 8},
+}
+
+func isPkgConst(name string) bool {
+	for _, c := range pkgConsts {
+		if c.name == name {
+			return true
+		}
+	}
+	return false
 }
 
 func constsSrc() string {
@@ -229,7 +255,16 @@ func escLit(rng *rand.Rand, s string) *E {
 }
 
 // inBody: inside a helper body only literals survive the copy, so most spellings there are literals
+// bodyNamed: set while a helper body is generated that refers to named constants: a constant of the group's scope whose value
+// is the wanted one (nil: none)
+var bodyNamed func(isStr bool, s string, i int64) *E
+
 func strSpellingsIn(rng *rand.Rand, s string, inBody bool) *E {
+	if inBody && bodyNamed != nil && rng.Intn(3) != 0 {
+		if e := bodyNamed(true, s, 0); e != nil {
+			return e
+		}
+	}
 	if inBody && rng.Intn(6) != 0 {
 		switch rng.Intn(4) {
 		case 0:
@@ -268,6 +303,11 @@ func strSpellingsIn(rng *rand.Rand, s string, inBody bool) *E {
 func intSpellings(rng *rand.Rand, v int64) *E { return intSpellingsIn(rng, v, false) }
 
 func intSpellingsIn(rng *rand.Rand, v int64, inBody bool) *E {
+	if inBody && bodyNamed != nil && rng.Intn(3) != 0 {
+		if e := bodyNamed(false, "", v); e != nil {
+			return e
+		}
+	}
 	if inBody && rng.Intn(6) != 0 {
 		sp := intLitSpellings(v)
 		if rng.Intn(3) == 0 {
@@ -329,7 +369,7 @@ func atom(rng *rand.Rand, v *E, str func(string) *E, num func(int64) *E) *E {
 	case 6:
 		return call(sel(sel(v, "Text"), "Matches"), str("a8"))
 	case 7:
-		return call(sel(sel(v, "Node"), "Is"), strLit([]string{"Ident", "BasicLit"}[rng.Intn(2)]))
+		return call(sel(sel(v, "Node"), "Is"), strSpellingsIn(rng, []string{"Ident", "BasicLit"}[rng.Intn(2)], textInBody))
 	case 8:
 		return not(call(sel(sel(v, "Type"), "Is"), str(typeNames[rng.Intn(2)])))
 	case 9, 10:
@@ -421,6 +461,9 @@ type scope struct {
 	matcher string
 	local   map[string]namedConst // constants declared in the group (they shadow the package-level ones)
 	fc      *fileCase
+	// the same in declaration order (generation must not depend on map iteration order)
+	localOrder []namedConst
+	constGroup bool // the helper bodies of this group refer to named constants
 }
 
 func (sc *scope) constByName(name string) (namedConst, bool) {
@@ -456,7 +499,7 @@ func (sc *scope) argFor(typ string, callee *helper) *E {
 				}
 			}
 		}
-		for _, c := range sc.local {
+		for _, c := range sc.localOrder {
 			add(c)
 		}
 		for _, c := range pkgConsts {
@@ -605,6 +648,48 @@ func (sc *scope) genHelper(name string, earlier []*helper) *helper {
 		return e
 	}
 	textInBody = true
+	if sc.constGroup || rng.Intn(20) == 0 {
+		// the body refers to named constants of the group's scope: preferably one declared in the group that shadows a
+		// package-level constant of another value, else a package-level one, never one spelled like a parameter
+		bodyNamed = func(isStr bool, s string, i int64) *E {
+			var shadowing, local, pkg []namedConst
+			for _, c := range sc.localOrder {
+				if c.isStr == isStr && c.s == s && c.i == i && !used[c.name] {
+					if isPkgConst(c.name) {
+						shadowing = append(shadowing, c)
+					} else {
+						local = append(local, c)
+					}
+				}
+			}
+			for _, c := range pkgConsts {
+				if _, sh := sc.local[c.name]; !sh && c.isStr == isStr && c.s == s && c.i == i && !used[c.name] {
+					pkg = append(pkg, c)
+				}
+			}
+			var pick namedConst
+			switch {
+			case len(shadowing) > 0 && rng.Intn(4) != 0:
+				pick = shadowing[rng.Intn(len(shadowing))]
+				sc.fc.shadowBody = true
+			case len(local) > 0 && rng.Intn(2) == 0:
+				pick = local[rng.Intn(len(local))]
+			case len(pkg) > 0:
+				pick = pkg[rng.Intn(len(pkg))]
+			case len(shadowing) > 0:
+				pick = shadowing[rng.Intn(len(shadowing))]
+				sc.fc.shadowBody = true
+			default:
+				return nil
+			}
+			sc.fc.constBody = true
+			if isStr {
+				return cident(pick.name, &Const{IsStr: true, S: s})
+			}
+			return cident(pick.name, &Const{I: i})
+		}
+	}
+	defer func() { bodyNamed = nil }()
 	otherVar = varExpr
 	matcherExpr = func() *E {
 		if len(mats) > 0 && (matcherShadowed || rng.Intn(2) == 0) {
@@ -673,6 +758,27 @@ func (sc *scope) genHelper(name string, earlier []*helper) *helper {
 		}
 	}
 	h.body = body
+	// blank parameters in every position (in front of, between and behind the named ones); the body cannot refer to them
+	if rng.Intn(3) == 0 {
+		for nb := 1 + rng.Intn(2); nb > 0; nb-- {
+			pos := rng.Intn(len(h.params) + 1)
+			if rng.Intn(2) == 0 {
+				pos = 0
+			}
+			typ := []string{"dsl.Var", "dsl.Var", "string", "int"}[rng.Intn(4)]
+			if pos < len(h.params) && rng.Intn(2) == 0 {
+				typ = h.params[pos].typ // `_, v dsl.Var`
+			}
+			h.params = append(h.params[:pos], append([]param{{"_", typ}}, h.params[pos:]...)...)
+			sc.fc.blank = true
+			for _, p := range h.params[pos+1:] {
+				if p.name != "_" {
+					sc.fc.blankFirst = true
+				}
+			}
+		}
+	}
+	h.grouped = rng.Intn(2) == 0
 	return h
 }
 
@@ -691,13 +797,27 @@ func genFileCase(rng *rand.Rand) fileCase {
 			g.matcher = []string{"mt", "q"}[rng.Intn(2)]
 		}
 		sc := &scope{rng: rng, matcher: g.matcher, local: map[string]namedConst{}, fc: &fc}
-		if rng.Intn(4) == 0 { // a constant of the group that shadows a package-level one
-			c := []namedConst{{"hi", false, "", 64}, {"n", false, "", 2}, {"s", true, "int32", 0}, {"lo", false, "", 8}}[rng.Intn(4)]
-			sc.local[c.name] = c
-			if c.isStr {
-				g.stmts = append(g.stmts, gstmt{decl: fmt.Sprintf("const %s = %q", c.name, c.s)})
-			} else {
-				g.stmts = append(g.stmts, gstmt{decl: fmt.Sprintf("const %s = %d", c.name, c.i)})
+		// constants of the group that shadow package-level ones; one group in nine declares many and its helper bodies refer to them
+		sc.constGroup = rng.Intn(9) == 0
+		nd := 0
+		if sc.constGroup {
+			nd = 5 + rng.Intn(6)
+		} else if rng.Intn(4) == 0 {
+			nd = 1 + rng.Intn(2)
+		}
+		{
+			for ; nd > 0; nd-- {
+				c := shadowPool[rng.Intn(len(shadowPool))]
+				if _, dup := sc.local[c.name]; dup {
+					continue
+				}
+				sc.local[c.name] = c
+				sc.localOrder = append(sc.localOrder, c)
+				if c.isStr {
+					g.stmts = append(g.stmts, gstmt{decl: fmt.Sprintf("const %s = %q", c.name, c.s)})
+				} else {
+					g.stmts = append(g.stmts, gstmt{decl: fmt.Sprintf("const %s = %d", c.name, c.i)})
+				}
 			}
 		}
 		names := append([]string{}, helperNames...)
@@ -824,8 +944,12 @@ func renderFile(fc fileCase, inlined bool) string {
 					continue
 				}
 				var ps []string
-				for _, p := range st.def.params {
-					ps = append(ps, p.name+" "+p.typ)
+				for i, p := range st.def.params {
+					if st.def.grouped && i+1 < len(st.def.params) && st.def.params[i+1].typ == p.typ {
+						ps = append(ps, p.name)
+					} else {
+						ps = append(ps, p.name+" "+p.typ)
+					}
 				}
 				fmt.Fprintf(&sb, "\t%s := func(%s) bool { return %s }\n", st.def.name, strings.Join(ps, ", "), st.def.body.src())
 			default:
@@ -955,14 +1079,19 @@ type Case struct {
 	IREqual bool   `json:"ir_equal"`
 	Model   string `json:"model,omitempty"` // Coq: the file as a list of groups (RG.Load.MacroEnv)
 	Groups  int    `json:"groups"`
-	Same    bool   `json:"same_name"`   // two groups define a helper of the same name
-	PkgFunc bool   `json:"pkg_func"`    // a later group calls a package-level function named like an earlier helper
-	Unhyg   bool   `json:"unhygienic"`  // a parameter is named like a selected field of the body or like the matcher
+	Same    bool   `json:"same_name"`  // two groups define a helper of the same name
+	PkgFunc bool   `json:"pkg_func"`   // a later group calls a package-level function named like an earlier helper
+	Unhyg   bool   `json:"unhygienic"` // a parameter is named like a selected field of the body or like the matcher
 	Nested  bool   `json:"nested"`
-	PNamed  bool   `json:"param_named"` // an identifier argument is spelled like a parameter of the called helper
-	Octal   bool   `json:"octal"`       // a helper body contains a legacy octal literal
-	Twice   bool   `json:"twice"`       // a helper is called more than once
-	Outside bool   `json:"outside_model"` // uses Type.IdenticalTo / Filter, whose argument the Coq skeleton does not model
+	PNamed  bool   `json:"param_named"`     // an identifier argument is spelled like a parameter of the called helper
+	Octal   bool   `json:"octal"`           // a helper body contains a legacy octal literal
+	Twice   bool   `json:"twice"`           // a helper is called more than once
+	Blank   bool   `json:"blank"`           // a helper has a blank parameter
+	BlankF  bool   `json:"blank_first"`     // ... followed by a named one
+	ConstB  bool   `json:"const_body"`      // a helper body refers to a named constant
+	ShadowB bool   `json:"shadow_body"`     // ... that is declared in the group and shadows a package-level one
+	Outside bool   `json:"outside_model"`   // uses Type.IdenticalTo / Filter, whose argument the Coq skeleton does not model
+	Fixed   string `json:"fixed,omitempty"` // a case of the fixed catalogue (twins.go)
 	Spell   string `json:"spelling,omitempty"`
 	Crash   bool   `json:"crash,omitempty"` // reported by the supervisor: the process died on this case
 }
@@ -1014,6 +1143,22 @@ func main() {
 		os.Exit(3)
 	}
 	id := 0
+	for _, tw := range fixedTwins {
+		id++
+		c := Case{Kind: "helper", ID: id, Groups: 1, Fixed: tw.name}
+		c.SrcA, c.SrcB = tw.render(false), tw.render(true)
+		if !announce(&c) {
+			continue
+		}
+		c.A = observe(t, c.SrcA)
+		c.B = observe(t, c.SrcB)
+		c.IREqual = c.A.IR != "" && c.A.IR == c.B.IR
+		if !strings.Contains(tw.helper, "m[name]") { // the model assumes that the matcher is indexed by a literal ([consistent])
+			c.Model = modelOf(c.SrcA)
+		}
+		enc.Encode(c)
+		stdout.Flush()
+	}
 	for i := 0; i < *nh; i++ {
 		id++
 		outsideModel = false
@@ -1029,6 +1174,7 @@ func main() {
 		c.IREqual = c.A.IR != "" && c.A.IR == c.B.IR
 		c.Groups, c.Same, c.PkgFunc, c.Unhyg, c.Nested, c.PNamed, c.Octal = len(fc.groups), fc.sameName, fc.pkgFunc, fc.unhyg, fc.nested, fc.paramNamed, fc.octal
 		c.Twice = fc.twice
+		c.Blank, c.BlankF, c.ConstB, c.ShadowB = fc.blank, fc.blankFirst, fc.constBody, fc.shadowBody
 		if !outsideModel {
 			c.Model = modelOf(c.SrcA)
 		}
